@@ -192,3 +192,10 @@ P('C15', suites=['c15'], run_files=['Tie.v', 'TieWf.v', 'TieFast.v'], static_fil
 T('C03', 'Coq model of ValueReader (handler of the regenerated handler machines, depth counter, key unescaping, null rejection) validated against the implementation on generated trees (both the faithful and the accelerated evaluator) and against encoding/json; PARTIAL: the tree theorem is stated on the model, the grammar link of the handler machines is by simulation with the spec machines', _TIE, 'Coq model + correspondence (impl vs model vs encoding/json)')
 T('C08', 'composition decoders written against the public API only, driven by a per-value strategy function shared by the Go harness and the OCaml driver over the model; final offsets and trees compared with direct decoding', _TIE, 'Coq model + strategy-interpreter correspondence')
 T('C15', 'the model of ReadValue/ReadObject/ReadArray is a pure function (no reader state influences results), so reuse-equals-fresh is immediate on the model; histories on one reader are compared with fresh readers and earlier results are checked for stability at run time', _TIE + 'Aliasing of returned maps/slices with reader-owned memory is a run-time observation (heap not modelled).', 'Coq model + history correspondence + run-time stability checks')
+
+PROPS['C01']['suites'] = ['c01', 'sweep-skipValue']
+PROPS['C02']['suites'] = ['c02', 'sweep-skipValue']
+PROPS['C11']['suites'] = ['c11', 'sweep-skipValueFast']
+PROPS['C07']['suites'] = ['c07', 'sweep-handleArrayValues', 'sweep-handleObjectValues']
+PROPS['C13']['suites'] = ['c13', 'sweep-readNull', 'sweep-readBool']
+PROPS['C06']['suites'] = ['c06', 'sweep-appendRemainderOfString', 'sweep-unescapeStringContent']
